@@ -70,9 +70,33 @@ def parse_opt(s):
     return None if s == "N" else int(s)
 
 
+class Iter(list):
+    """A list of ints that is handed to the implementation as another kind of iterable."""
+    kind = ""
+
+    def make(self):
+        if self.kind == "g":
+            return (x for x in list(self))
+        if self.kind == "t":
+            return tuple(self)
+        if self.kind == "i":
+            return iter(list(self))
+        return list(self)
+
+
 def parse_list(s):
-    s = s.strip()[1:-1].strip()
-    return [int(x) for x in s.split(",")] if s else []
+    s = s.strip()
+    kind = ""
+    if s and s[0] in "gti":
+        kind, s = s[0], s[1:]
+    s = s[1:-1].strip()
+    r = Iter(int(x) for x in s.split(",")) if s else Iter()
+    r.kind = kind
+    return r
+
+
+def _arg(x):
+    return x.make() if isinstance(x, Iter) else x
 
 
 def parse_op(s):
@@ -86,6 +110,8 @@ def parse_op(s):
         return (k, slice(parse_opt(w[1]), parse_opt(w[2]), parse_opt(w[3])))
     if k in ("di", "ap", "im", "po", "rm"):
         return (k, int(w[1]))
+    if k == "sk":
+        return (k, int(w[1]), int(w[2]))
     if k in ("ex", "ia"):
         return (k, parse_list(w[1]))
     return (k,)
@@ -97,7 +123,7 @@ def apply_op(l, op):
     if k == "si":
         l[op[1]] = op[2]
     elif k == "ss":
-        l[op[1]] = op[2]
+        l[op[1]] = _arg(op[2])
     elif k == "di":
         del l[op[1]]
     elif k == "ds":
@@ -105,9 +131,9 @@ def apply_op(l, op):
     elif k == "ap":
         l.append(op[1])
     elif k == "ex":
-        l.extend(op[1])
+        l.extend(_arg(op[1]))
     elif k == "ia":
-        l += op[1]
+        l += _arg(op[1])
     elif k == "im":
         l *= op[1]
     elif k == "in":
@@ -122,9 +148,14 @@ def apply_op(l, op):
         l.reverse()
     elif k == "so":
         l.sort()
+    elif k == "sk":
+        l.sort(key=SORT_KEYS[op[1]], reverse=bool(op[2]))
     else:
         raise AssertionError(op)
     return None
+
+
+SORT_KEYS = [None, lambda x: x % 3, lambda x: x // 2, lambda x: -x]
 
 
 def show_index(ix):
@@ -160,7 +191,8 @@ def exhaustive_single_ops(maxlen, idxs, steps, kind="tl", validator="id", base=1
             yield head + "im %d" % i
         for x in list(range(base, base + n)) + [99]:
             yield head + "rm %d" % x
-        for o in ("ap 1", "ex []", "ex [1,2]", "ia []", "ia [1]", "cl", "rv", "so"):
+        for o in ("ap 1", "ex []", "ex [1,2]", "ia []", "ia [1]", "ex g[1,2]", "ia g[1]", "ia i[1,2]", "ex t[1]", "cl", "rv", "so",
+                  "sk 0 1", "sk 1 0", "sk 1 1", "sk 2 0", "sk 2 1", "sk 3 0", "sk 3 1"):
             yield head + o
 
 
@@ -180,7 +212,7 @@ def random_op(rng, n, wide=False):
 
     def items(k=None):
         k = rng.randint(0, 4) if k is None else k
-        return show_list([item() for _ in range(k)])
+        return rng.choice(["", "", "", "g", "t", "i"]) + show_list([item() for _ in range(k)])
     if r < 0.08:
         return "si %d %d" % (rng.randint(-n - 1, n) if n else ri(), item())
     if r < 0.30:
@@ -210,7 +242,8 @@ def random_op(rng, n, wide=False):
         return "po %d" % (rng.randint(-n, n - 1) if n and rng.random() < 0.8 else ri())
     if r < 0.93:
         return "rm %d" % item()
-    return rng.choice(["cl", "rv", "so", "so", "rv"])
+    return rng.choice(["cl", "rv", "so", "rv", "sk %d %d" % (rng.randint(0, 3), rng.randint(0, 1)),
+                       "sk %d 1" % rng.randint(1, 2), "sk %d %d" % (rng.randint(1, 2), rng.randint(0, 1))])
 
 
 def random_history(rng, kind="tl", maxops=12, validators=None):
